@@ -419,6 +419,12 @@ func countIPCStreams(body []byte) int {
 	return n
 }
 
+// ipcEndsWithEOS: the body's last IPC stream is closed by the end-of-stream marker (continuation
+// 0xFFFFFFFF + zero length), which is how a client tells "stream finished" from "connection cut".
+func ipcEndsWithEOS(body []byte) bool {
+	return bytes.HasSuffix(body, []byte{0xff, 0xff, 0xff, 0xff, 0, 0, 0, 0})
+}
+
 // parseIPCBody reads every concatenated IPC stream of a response body.
 func parseIPCBody(body []byte) ([]respBatch, bool) {
 	var out []respBatch
@@ -779,6 +785,10 @@ func (e *streamEnv) renderResp(r *httpResult) string {
 	parts := make([]string, len(r.batches))
 	for i, b := range r.batches {
 		parts[i] = e.renderBatch(b)
+	}
+	if r.status == 200 && r.aborted == "" && (countIPCStreams(r.body) == 0 || !ipcEndsWithEOS(r.body)) {
+		// a 200 answer is at least one complete IPC stream (schema ... end-of-stream), even when it carries no batch
+		return st + " !not-an-ipc-stream"
 	}
 	if len(parts) == 0 {
 		return st + " -"
